@@ -188,6 +188,36 @@ def rule_capacity_trim(ctx, rule, cfile, fname):
             samples.append('%s trims %s to %s, one of the owner\'s sizes %s' % (where, ck[1], v, sorted(needs[ck])))
         # lowering the counter from any value >= need down to need must not change the outcome of the owner's growth test:
         # only `capacity < need` has that property (`!=` and `<=` fire for a larger-than-needed capacity and not for the trimmed one)
+        # the owner's growth block must only enlarge: if it also resets state of the particles that were there before (a loop
+        # that zeroes whole arrays), then whether the capacity was trimmed decides whether that state survives the next growth
+        for c_, tu_ in sorted(tus.items()):
+            for fname_, f_ in sorted(tu_.funcs.items()):
+                if cfront.body(f_) is None or cfront.basename(f_.get('_locfile') or f_.get('_file')) != c_ or fname_ == fname:
+                    continue
+                for ifs in walk(cfront.body(f_)):
+                    if ifs.get('kind') != 'IfStmt':
+                        continue
+                    if ck not in [_member_key(m_) for m_ in walk(ifs['inner'][0]) if m_.get('kind') == 'MemberExpr']:
+                        continue
+                    if not any(is_assign(x_) and _member_key(x_['inner'][0]) == ck for x_ in walk(ifs['inner'][1])):
+                        continue
+                    for lp in walk(ifs['inner'][1]):
+                        if lp.get('kind') != 'ForStmt':
+                            continue
+                        init0 = ''
+                        for d_ in walk(lp['inner'][0] or {}):
+                            if d_.get('kind') == 'VarDecl' and 'init' in d_:
+                                ini_ = [c2 for c2 in d_.get('inner', []) if c2.get('kind') not in ('FullComment',)]
+                                init0 = '=' + (render(ini_[-1]).replace(' ', '') if ini_ else '')
+                            elif is_assign(d_):
+                                init0 = '=' + render(d_['inner'][1]).replace(' ', '')
+                        stores = [x_ for x_ in walk(lp['inner'][-1]) if is_assign(x_) and x_['opcode'] == '=' and strip(x_['inner'][0]).get('kind') == 'ArraySubscriptExpr'
+                                  and render(x_['inner'][1]).strip() in ('0', '0.', '0.0')]
+                        if stores and re.search(r'=0\)?$', init0):
+                            n += 1
+                            ctx.report(rule, '%s:%s:reset-on-growth' % (fname, ck[1]), 'src/%s:%s %s' % (c_, line_of(lp), fname_),
+                                       'when %s grows the arrays guarded by %s it also clears %s for every particle from index 0 (not just the new ones); %s (%s) lowers that capacity to the needed size, so whether a snapshot or copy was taken decides whether the next added particle triggers the reset - taking a copy changes the later evolution of the source'
+                                       % (fname_, ck[1], render(strip(stores[0]['inner'][0])['inner'][0]), fname, where))
         for op, tw, txt in TESTS.get(ck, []):
             n += 1
             if op != '<':
